@@ -155,7 +155,7 @@ def _run(ctx, rng, thorough, T):
             rec(ctx, 'c20.dump-certurl-accepts tree=%d' % ti, 'exit %d' % rc4, 'exit 0')
             signed = os.path.join(T, f'signed{ti}.wbn')
             rc5, _, err5 = sh([B('sign-bundle'), 'signatures-section', '-i', outp, '-o', signed, '-certificate', chain, '-privateKey', keypem,
-                               '-validityUrl', 'https://example.com/validity', '-miRecordSize', str(rng.choice([16, 4096]))])
+                               '-validityUrl', 'https://example.com/validity', '-miRecordSize', str([16384, 16, 4096, 1][ti % 4])])
             rec(ctx, 'c20.sign-bundle-signatures tree=%d' % ti, 'exit %d %s' % (rc5, err5.decode()[-100:].strip() if rc5 else ''), 'exit 0 ')
             if rc5 == 0:
                 rc6, out6, _ = sh([B('dump-bundle'), '-i', signed])
@@ -239,9 +239,9 @@ def _run(ctx, rng, thorough, T):
         certpem, keypem = wfile(f'sx{i}c.pem', kk['cert']), wfile(f'sx{i}k.pem', kk['key'])
         rc, chainbytes, _ = sh([B('gen-certurl'), '-pem', certpem, '-ocsp', ocsp])
         chain = wfile(f'sx{i}chain.cbor', chainbytes)
-        content = wfile(f'content{i}.html', rbytes(rng, rng.choice([0, 1, 100, 5000])))
+        content = wfile(f'content{i}.html', rbytes(rng, [5000, 100, 1, 0, 40000][i % 5]))
         outp = os.path.join(T, f'out{i}.sxg')
-        rs = rng.choice([1, 16, 4096, 16384])
+        rs = [16384, 16, 1, 4096][i % 4]
         cmd = [B('gen-signedexchange'), '-version', ver, '-uri', 'https://example.com/page%d.html' % i, '-content', content, '-certificate', certpem, '-privateKey', keypem,
                '-certUrl', 'https://example.com/cert.cbor', '-validityUrl', 'https://example.com/validity', '-miRecordSize', str(rs), '-expire', rng.choice(['1h', '168h', '1m']), '-o', outp,
                '-responseHeader', 'X-Extra: v1', '-responseHeader', 'X-Extra: v2']
